@@ -449,7 +449,7 @@ def check_history(ctx, hist, plan):
             for v in ctx.violations[n0:]:
                 if not v['sig'].startswith('C02/5 thread-died') and not v['sig'].startswith('C02/5 deadlock'):
                     v['msg'] = '%s: %s' % (v['sig'], v['msg'])
-                    v['sig'] = 'C02/%s raced-attempt%s' % (v['clause'], tag)
+                    v['sig'] = 'C02/race raced-attempt%s' % (tag,)
     for (si, clause, sig, msg, detail) in ctx.pending:
         if si >= len(attempts):
             ctx.violation(clause, sig, msg, detail)
